@@ -13,6 +13,7 @@ RULES = {
     "P3": "new and replenished orders join at the back: add_order and the replenish path insert through Q.push, the only insertion primitive",
     "P4": "no tail re-queue of an unreplenished survivor: in match_order a Q.push of an order derived from the popped one is allowed only on paths where hidden_reduced > 0 (a partially filled order must keep its place)",
     "P5": "tickets cannot go stale (see C19)",
+    "P7": "hidden quantity never trades in place: on every path of match_against, for every variant, consumed = min(incoming, displayed) (C05's A5 'consumed' clause on the same paths) - quantity replenished from hidden in the same visit would trade ahead of displayed orders queued behind, and consuming less than the display would let a later order trade while an earlier one still displays quantity",
     "P6": "orders parked during a match are re-queued in the order they were parked (forward drain of the container)",
 }
 
@@ -82,6 +83,42 @@ def _run(ctx, chk):
         chk.ok("P4", b.defp, b.span)
     rule_stale_tickets(ctx, chk, Q, "P5", "C04")
     LR.rule_no_remove_then_push_in_extras(ctx, chk, L, "P5")
+    # P7: C05's consumed clause (only that clause; the rest of C05 is not a condition of time priority)
+    from . import c05
+    from ..report import Relabel
+
+    class OnlyConsumed(Relabel):
+        n = 0
+
+        def _keep(self, rule, key):
+            return rule == "A5" and key.endswith(":consumed")
+
+        def ok(self, rule, key, site="", detail=""):
+            if self._keep(rule, key):
+                OnlyConsumed.n += 1
+                return Relabel.ok(self, rule, key, site, detail)
+            return True
+
+        def fail(self, rule, key, site="", detail="", path=None, undecided=False):
+            if self._keep(rule, key):
+                OnlyConsumed.n += 1
+                return Relabel.fail(self, rule, key, site, detail, path, undecided=undecided)
+            return False
+
+        def require(self, cond, rule, key, site="", detail="", path=None):
+            if self._keep(rule, key):
+                OnlyConsumed.n += 1
+                return Relabel.require(self, cond, rule, key, site, detail, path)
+            return bool(cond)
+
+        def sample(self, *a, **k):
+            pass
+
+    view = OnlyConsumed(chk, "P7", "match:")
+    view.stats = {}
+    c05.run(ctx, view)
+    chk.stats["P7_consumed_obligations"] = OnlyConsumed.n
+    chk.require(OnlyConsumed.n >= 14, "P7", "match_against:coverage", "", "only %d consumed-clause obligations (7 variants x 2 regions expected)" % OnlyConsumed.n)
     # P6 forward drain
     bad = set()
     for r in res:
